@@ -21,7 +21,7 @@ META = {
                'day-of-month) combination that can resolve into another year is rejected by the compiler; no shipped rule (zonedb, '
                'zonedbx, zonedbpy) has such a combination; a Zone UNTIL weekday expression is resolved with (untilYear, untilMonth, '
                'weekday, day), both the resolved month and day are stored, and resolutions into month 0 or 13 are refused',
-    'not_decided': 'years outside the samples (2 or 3 years in the quick tier, 8 in the thorough tier, leap / common / century years '
+    'not_decided': 'years outside the samples (5 years in the quick tier, 8 in the thorough tier, leap / common / century years '
                    'and both ends of the range among them)',
     'assumptions': ['weekday numbers are 1..7 on both sides so that the (a - b + 7) % 7 shifts have non-negative operands '
                     '(truncating and flooring remainder coincide)', 'clang 14 parser', 'CPython ast'],
@@ -69,7 +69,7 @@ def run(cfg):
     # the Python resolver, interpreted (E-SEQ over its ast) on every (month, weekday, day) expression of the sampled years,
     # against the calendar; the C++ resolver is held to the same calendar by R5, so the two agree wherever both are defined
     pev = PyEval(cfg, max_steps=4000000)
-    yearsp = [2000, 2019] if cfg.tier != 'thorough' else [1873, 1900, 1999, 2000, 2001, 2004, 2100, 2126]
+    yearsp = [1873, 1900, 2000, 2019, 2100] if cfg.tier != 'thorough' else [1873, 1900, 1999, 2000, 2001, 2004, 2100, 2126]
     n1, bad1 = 0, None
     for y in yearsp:
         for mth in range(1, 13):
@@ -240,7 +240,7 @@ def run(cfg):
     import datetime
     from .ceval import CEval
     R.rule('R5', 'calcStartDayOfMonth resolves every admitted expression of the sampled years to the calendar\'s (month, day)', floor=5000)
-    years = [1873, 1900, 1999, 2000, 2001, 2004, 2100, 2126] if cfg.tier == 'thorough' else [1900, 2000, 2019]
+    years = [1873, 1900, 1999, 2000, 2001, 2004, 2100, 2126] if cfg.tier == 'thorough' else [1873, 1900, 2000, 2019, 2100]
     cf = lib.fn(CXX_FN)
     ev = CEval(lib)
     from .aeval import AEval, AObj, CxxModule
